@@ -105,6 +105,8 @@ class ScipyOptimizeDriver(Driver):
         Used internally to control when to perform singular checks on computed total derivs.
     _con_cache : dict
         Cached result of constraint evaluations because scipy asks for them in a separate function.
+    _con_cache_x : ndarray or None
+        Design point at which _con_cache was evaluated.
     _con_idx : dict
         Used for constraint bookkeeping in the presence of 2-sided constraints.
     _grad_cache : {}
@@ -148,6 +150,7 @@ class ScipyOptimizeDriver(Driver):
         self._scipy_optimize_result = None
         self._grad_cache = None
         self._con_cache = None
+        self._con_cache_x = None
         self._con_idx = {}
         self._obj_and_nlcons = None
         self._dvlist = None
@@ -239,6 +242,7 @@ class ScipyOptimizeDriver(Driver):
         self._total_jac = None
         self._total_jac_linear = None
         self._desvar_array_cache = None
+        self._con_cache_x = None
 
         self._check_for_missing_objective()
         self._check_for_invalid_desvar_values()
@@ -596,6 +600,7 @@ class ScipyOptimizeDriver(Driver):
                 break
 
             self._con_cache = self.get_constraint_values()
+            self._con_cache_x = np.array(x_new, copy=True)
 
         except Exception:
             if self._exc_info is None:  # only record the first one
@@ -629,6 +634,9 @@ class ScipyOptimizeDriver(Driver):
         """
         if self.options['optimizer'] in ['differential_evolution', 'COBYQA']:
             # the DE opt will not have called this, so we do it here to update DV/resp values
+            self._objfunc(x_new)
+        elif self._con_cache_x is None or not np.array_equal(self._con_cache_x, x_new):
+            # scipy may ask for the constraints at a new point before the objective
             self._objfunc(x_new)
 
         return self._con_cache[name][idx]
